@@ -326,7 +326,8 @@ def run(m: Model, r: Report, tier: str) -> None:
 
     # close really closes (stream owners close the writer and wait; connection objects cancel their reader task first)
     for f in closes:
-        src_ = [ast.unparse(n) for n in ast.walk(f.node) if isinstance(n, (ast.Expr,))]
+        from sa.util import subst_locals as _slc
+        src_ = [ast.unparse(n) for n in ast.walk(_slc(f.node, f.node)) if isinstance(n, (ast.Expr,))]      # (a local alias of self.writer is resolved)
         if any("self.writer" in t for t in src_) or f.cls.name in ("TCPTransport", "UnixTransport", "DoIPConnection", "HSFZConnection"):
             r.check("self.writer.close()" in src_ and any(t == "await self.writer.wait_closed()" for t in src_), "R6", f"{f.qualname}#closes-stream",
                     "close() must close the writer and await wait_closed()", loc=f.loc)
